@@ -1,9 +1,83 @@
-"""Structural predicates used by known_findings.json matchers (narrow classes of definitions
-that one diagnosed root cause hits; see DESIGN 6)."""
+"""Structural predicates used by known_findings.json matchers: narrow classes of definitions that one diagnosed
+root cause hits (DESIGN section 6).  A definition is the harness AST: ("seq", [items]), ("ev", name),
+("and"|"or"|"xor", [branch seqs]), ("loop", body seq), ("break",), ("detach",)."""
 
 PREDICATES = {}
+RULES = {}
 
 
 def predicate(fn):
     PREDICATES[fn.__name__] = fn
     return fn
+
+
+def rule(fn):
+    RULES[fn.__name__] = fn
+    return fn
+
+
+def _walk(n):
+    yield n
+    k = n[0]
+    if k == "seq":
+        for c in n[1]:
+            yield from _walk(c)
+    elif k == "loop":
+        yield from _walk(n[1])
+    elif k in ("and", "or", "xor"):
+        for b in n[1]:
+            yield from _walk(b)
+
+
+def _break_branches(loop):
+    """break branches (lists of items before the break) of XORs that belong to this loop (not to an inner loop)"""
+    out = []
+
+    def rec(n):
+        k = n[0]
+        if k == "seq":
+            for c in n[1]:
+                rec(c)
+        elif k in ("and", "or", "xor"):
+            for b in n[1]:
+                if b[1] and b[1][-1][0] == "break":
+                    out.append(b[1][:-1])
+                rec(b)
+        # inner loops own their breaks
+    rec(loop[1])
+    return out
+
+
+def _has_break(loop):
+    return bool(_break_branches(loop))
+
+
+@predicate
+def jobending_loop_long_break(d):
+    """the top-level sequence ends with a loop that has a break branch of at least two events"""
+    if d[0] != "seq" or not d[1] or d[1][-1][0] != "loop":
+        return False
+    return any(len(b) >= 2 for b in _break_branches(d[1][-1]))
+
+
+@predicate
+def loop_with_break_inside_loop(d):
+    """some loop contains, at any depth of its body, another loop that has a break"""
+    for n in _walk(d):
+        if n[0] == "loop":
+            for m in _walk(n[1]):
+                if m[0] == "loop" and _has_break(m):
+                    return True
+    return False
+
+
+@rule
+def rejected_jobs_exit_the_final_loop_normally(d, jobs):
+    """every rejected job ends with an event that is not the last event of a long break branch of the final loop"""
+    tails = {b[-1][1] for b in _break_branches(d[1][-1]) if len(b) >= 2 and b[-1][0] == "ev"}
+    for job in jobs:
+        ids_with_succ = {p for _i, _t, pv in job for p in pv}
+        sinks = {t for i, t, _pv in job if i not in ids_with_succ}
+        if sinks & tails:
+            return False
+    return True
